@@ -18,7 +18,7 @@ EXTENDS Naturals, Sequences, FiniteSets, TLC
 CONSTANTS MaxEv,     \* simulator events explored
           MaxInj,    \* injected events explored
           MaxDown,   \* region teardowns explored
-          Batches    \* which response shapes the simulator uses (subset of 1..11)
+          Batches    \* which response shapes the simulator uses (subset of 1..12)
 
 VARIABLES
     (* proxy *)   queue, cache, regs, seen,
@@ -42,6 +42,12 @@ IsInj(e) == e > 900
 (*  "ba" / "bs" / "bu" / "bi"  an untemplated event whose body is not a map but an LLSD    *)
 (*       array / string / undef / integer (BK rotates through them with the event number,  *)
 (*       so every form meets every context);                                               *)
+(*  "eq" an event that is EQUAL IN VALUE (same message, same body) to the other "eq" events  *)
+(*       of its response.  Events are numbered by their POSITION in the simulator's stream   *)
+(*       and every clause below is positional: exactly the positions no addon swallowed are  *)
+(*       delivered, in order, however many of them carry the same content (the harness shows *)
+(*       the viewer-visible content of position n as the content of the first "eq" event of  *)
+(*       its response);                                                                      *)
 (*  "CR" CrossedRegion (template-complete: RegionData AND Info blocks) announces .reg too;  *)
 (* How (and whether) the proxy can decode an event never changes how the response is       *)
 (* processed: all non-announcing kinds above are the same to every action below.           *)
@@ -67,6 +73,7 @@ Batch(i) == CASE i = 1 -> <<Ev("to")>>
               [] i = 9 -> <<P, Ev("hr")>>
               [] i = 10 -> <<Ev("hr"), Ann("CR", 2)>>
               [] i = 11 -> <<Ann("CR", 2), Ev("hr")>>
+              [] i = 12 -> <<Ev("eq"), Ev("eq"), Ev("eq")>>
 (* Environment: addons swallow only events that announce no region (what a swallowed        *)
 (* announcement means for registration is left open by the property).                       *)
 RaisePos(b) == LET ix == {i \in DOMAIN b : b[i].k = "hr"} IN
@@ -150,7 +157,7 @@ Teardown == /\ ndown < MaxDown /\ ndown' = ndown + 1
             /\ UNCHANGED <<regs, seen, nev, sid, got, ninj, sentOK, announced, unseen>>
 
 Next == \/ PollFwd \/ \E lost \in BOOLEAN : PollCached(lost)
-        \/ \E i \in 1..11 : \E sw \in SUBSET (1..2) : \E lost \in BOOLEAN : SimRespond(i, sw, lost)
+        \/ \E i \in 1..12 : \E sw \in SUBSET (1..3) : \E lost \in BOOLEAN : SimRespond(i, sw, lost)
         \/ (\E kind \in FailKinds : SimFail(kind)) \/ Inject \/ Teardown
 Spec == Init /\ [][Next]_vars
 
